@@ -136,6 +136,7 @@ fn judge<G: CurveTag>(
     fx: &Fixture<G>,
     bytes: &[u8],
     modes: &[u8],
+    all_decoders: bool,
     what: &dyn Fn() -> serde_json::Value,
 ) -> Result<(bool, String), Failure> {
     let (dec, peak) = measure(|| guarded(|| R1CSProof::<G>::from_bytes(bytes)));
@@ -157,35 +158,79 @@ fn judge<G: CurveTag>(
             what(),
         ));
     }
-    let Ok(proof) = dec else { return Ok((false, "FormatError".into())) };
-    let mut verdicts = vec![];
-    for mode in modes {
-        match mode {
-            0 => {
-                let v = run_verifier::<G>(&fx.prog, &fx.commitments, &proof, &VerifyOpts::default());
-                if let Some(p) = &v.panic {
-                    return Err(Failure::new(
-                        format!("C08:verify-panic:{}", p.split('@').last().unwrap_or("").trim()),
-                        format!("Verifier::verify panicked on a decodable proof: {}", p),
-                        what(),
-                    ));
-                }
-                verdicts.push(v.verdict());
-            }
-            m => {
-                let mut members = vec![BatchMember { prog: &fx.prog, commitments: &fx.commitments, proof: &proof }];
-                if *m == 2 {
-                    members.insert(0, BatchMember { prog: &fx.prog, commitments: &fx.commitments, proof: &fx.proof });
-                }
-                let (r, p) = run_batch::<G>(&members, 256, 5);
+    // every public way of decoding a proof: from_bytes, the CanonicalDeserialize impls
+    // (validated and unchecked), and a proof inside a container (validated through the
+    // container's batch check)
+    use ark_serialize::CanonicalDeserialize;
+    let mut decoded: Vec<(&str, R1CSProof<G>)> = vec![];
+    if let Ok(p) = dec {
+        decoded.push(("from_bytes", p));
+    }
+    let others: Result<Vec<(&str, Option<R1CSProof<G>>)>, String> = guarded(|| {
+        if !all_decoders {
+            return vec![];
+        }
+        let mut container = (1u64).to_le_bytes().to_vec();
+        container.extend_from_slice(bytes);
+        vec![
+            ("deserialize_compressed", R1CSProof::<G>::deserialize_compressed(bytes).ok()),
+            ("deserialize_compressed_unchecked", R1CSProof::<G>::deserialize_compressed_unchecked(bytes).ok()),
+            ("Vec::deserialize_compressed", Vec::<R1CSProof<G>>::deserialize_compressed(&container[..]).ok().and_then(|mut v| v.pop())),
+        ]
+    });
+    match others {
+        Err(p) => {
+            return Err(Failure::new(
+                format!("C08:decode-panic:{}", p.split('@').last().unwrap_or("").trim()),
+                format!("a CanonicalDeserialize entry point panicked: {}", p),
+                what(),
+            ))
+        }
+        Ok(v) => {
+            for (name, p) in v {
                 if let Some(p) = p {
-                    return Err(Failure::new(
-                        format!("C08:batch-panic:{}", p.split('@').last().unwrap_or("").trim()),
-                        format!("batch_verify ({} members) panicked on a decodable proof: {}", members.len(), p),
-                        what(),
-                    ));
+                    // skip objects already covered (same canonical bytes)
+                    let enc = p.to_bytes().ok();
+                    if !decoded.iter().any(|(_, q)| q.to_bytes().ok() == enc) {
+                        decoded.push((name, p));
+                    }
                 }
-                verdicts.push(format!("batch:{}", if matches!(r, Some(Ok(()))) { "Ok" } else { "Err" }));
+            }
+        }
+    }
+    if decoded.is_empty() {
+        return Ok((false, "FormatError".into()));
+    }
+    let mut verdicts = vec![];
+    for (how, proof) in &decoded {
+        for mode in modes {
+            match mode {
+                0 => {
+                    let v = run_verifier::<G>(&fx.prog, &fx.commitments, proof, &VerifyOpts::default());
+                    if let Some(p) = &v.panic {
+                        return Err(Failure::new(
+                            format!("C08:verify-panic:{}", p.split('@').last().unwrap_or("").trim()),
+                            format!("Verifier::verify panicked on a proof decoded with {}: {}", how, p),
+                            what(),
+                        ));
+                    }
+                    verdicts.push(v.verdict());
+                }
+                m => {
+                    let mut members = vec![BatchMember { prog: &fx.prog, commitments: &fx.commitments, proof }];
+                    if *m == 2 {
+                        members.insert(0, BatchMember { prog: &fx.prog, commitments: &fx.commitments, proof: &fx.proof });
+                    }
+                    let (r, p) = run_batch::<G>(&members, 256, 5);
+                    if let Some(p) = p {
+                        return Err(Failure::new(
+                            format!("C08:batch-panic:{}", p.split('@').last().unwrap_or("").trim()),
+                            format!("batch_verify ({} members) panicked on a proof decoded with {}: {}", members.len(), how, p),
+                            what(),
+                        ));
+                    }
+                    verdicts.push(format!("batch:{}", if matches!(r, Some(Ok(()))) { "Ok" } else { "Err" }));
+                }
             }
         }
     }
@@ -197,7 +242,10 @@ fn grid_case<G: CurveTag>(c: &GridCase, col: &mut Collector) -> Result<(), Failu
     let m = craft(&fx, c);
     let bytes = m.to_bytes();
     let what = || json!({"grid": format!("{:?}", c), "proof_hex": hex::encode(&bytes[..bytes.len().min(4096)])});
-    let (decoded, verdict) = judge::<G>(&fx, &bytes, &[c.mode], &what)?;
+    let (decoded, verdict) = judge::<G>(&fx, &bytes, &[c.mode], {
+        let k = c.gates.next_power_of_two().max(1).trailing_zeros() as usize;
+        c.la == k || c.lb == k || (c.la + 3 * c.lb + c.gates + c.fill as usize) % 8 == 0
+    }, &what)?;
     if decoded {
         col.nontrivial(fp_of(c));
         col.class(if c.la == c.lb { "|L|=|R|" } else if c.la < c.lb { "|L|<|R|" } else { "|L|>|R|" });
@@ -349,7 +397,7 @@ fn fuzz_case<G: CurveTag>(bytes: &[u8], col: &mut Collector) -> Result<(), Failu
         }
     };
     let what = || json!({"kind": label, "gates": [g - g2, g2], "curve": G::CURVE.name(), "input_hex": hex::encode(&input[..input.len().min(4096)])});
-    let (decoded, verdict) = judge::<G>(&fx, &input, &[0, 1, 2], &what)?;
+    let (decoded, verdict) = judge::<G>(&fx, &input, &[0, 1, 2], input.len() % 2 == 0 || kind == 0, &what)?;
     col.class(&format!("{}:{}", label, if decoded { "decodes" } else { "format-error" }));
     if decoded {
         col.nontrivial(fp_of(&input));
